@@ -421,6 +421,129 @@ theorem stateList_visits_each_once (count : Nat) (v : Nat → Bool) (h : ∀ i, 
     simp only [h2, if_false]
     exact List.Perm.refl _
 
+/-! ### ConstrainedMotionValidator -/
+
+/-- the property's right-hand side for a constrained motion: the end state satisfies the constraint,
+the traversal arrives, and every state it visits as well as the end state itself is valid. -/
+def CAllValid (sat : Bool) (m : Nat) (geom : Bool) (v : Nat → Bool) : Prop :=
+  sat = true ∧ geom = true ∧ ∀ j, 1 ≤ j → j ≤ m + 1 → v j = true
+
+def CCountsOnce (r : CResult) : Prop :=
+  (r.verdict = true ∧ r.dValid = 1 ∧ r.dInvalid = 0) ∨ (r.verdict = false ∧ r.dValid = 0 ∧ r.dInvalid = 1)
+
+theorem cAllValid_iff (sat : Bool) (m : Nat) (geom : Bool) (v : Nat → Bool) :
+    CAllValid sat m geom v ↔ (v (m + 1) = true ∧ sat = true ∧ (traverse m geom v).1 = true) := by
+  rw [(traverse_spec m geom v).1]
+  unfold CAllValid
+  constructor
+  · rintro ⟨h1, h2, h3⟩
+    exact ⟨h3 _ (by omega) (Nat.le_refl _), h1, h2, fun j a b => h3 j a (by omega)⟩
+  · rintro ⟨h1, h2, h3, h4⟩
+    refine ⟨h2, h3, ?_⟩
+    intro j a b
+    by_cases hj : j = m + 1
+    · subst hj; exact h1
+    · exact h4 j a (by omega)
+
+/-- [AF] with the proposed fixes (F120–F122) both forms of the constrained validator answer valid
+exactly when the end state satisfies the constraint, the traversal arrives and every visited state
+and the end state are valid. -/
+theorem constrained_verdict (hasFirst sat : Bool) (m : Nat) (geom : Bool) (v : Nat → Bool) :
+    ((constrained2 sat m geom v).verdict = true ↔ CAllValid sat m geom v) ∧
+    ((constrained3 hasFirst sat m geom v).verdict = true ↔ CAllValid sat m geom v) := by
+  rw [cAllValid_iff]
+  refine ⟨?_, ?_⟩
+  · unfold constrained2
+    cases hv : v (m + 1) <;> cases sat <;> cases ht : (traverse m geom v).1 <;> simp
+  · unfold constrained3
+    cases hv : v (m + 1) <;> cases sat <;> cases ht : (traverse m geom v).1 <;> simp
+
+example : (constrained2 true 3 true (fun _ => true)).verdict = true ∧
+    (constrained3 true true 3 true (fun j => j != 4)).verdict = false := by decide
+
+/-- [AF] both forms agree (fixed code). -/
+theorem constrained_forms_agree (hasFirst sat : Bool) (m : Nat) (geom : Bool) (v : Nat → Bool) :
+    (constrained2 sat m geom v).verdict = (constrained3 hasFirst sat m geom v).verdict := by
+  have h := constrained_verdict hasFirst sat m geom v
+  exact Bool.eq_iff_iff.2 (h.1.trans h.2.symm)
+
+/-- [AF] each call advances exactly one counter (fixed code). -/
+theorem constrained_counters (hasFirst sat : Bool) (m : Nat) (geom : Bool) (v : Nat → Bool) :
+    CCountsOnce (constrained2 sat m geom v) ∧ CCountsOnce (constrained3 hasFirst sat m geom v) := by
+  refine ⟨?_, ?_⟩
+  · unfold constrained2 CCountsOnce
+    cases hv : v (m + 1) <;> cases sat <;> cases ht : (traverse m geom v).1 <;> simp
+  · unfold constrained3 CCountsOnce
+    cases hv : v (m + 1) <;> cases sat <;> cases ht : (traverse m geom v).1 <;> simp
+
+/-- [AF] `lastValid` (fixed code): untouched on success; on every failure the fraction is written and
+the state handed back (when asked for) is `g_k` with `k` the LARGEST index whose prefix
+`g_1..g_k` is valid among the states the traversal visits (`k ≤ m`, and `g_{k+1}` is invalid when
+`k < m`). -/
+theorem constrained_lastValid (hasFirst sat : Bool) (m : Nat) (geom : Bool) (v : Nat → Bool) :
+    ((constrained3 hasFirst sat m geom v).verdict = true →
+        (constrained3 hasFirst sat m geom v).back = none ∧
+        (constrained3 hasFirst sat m geom v).wroteSecond = false) ∧
+    ((constrained3 hasFirst sat m geom v).verdict = false →
+        (constrained3 hasFirst sat m geom v).wroteSecond = true ∧
+        (hasFirst = true → ∃ k, (constrained3 hasFirst sat m geom v).back = some k ∧ k ≤ m ∧
+          (∀ j, 1 ≤ j → j ≤ k → v j = true) ∧ (k < m → v (k + 1) = false))) := by
+  obtain ⟨_, h2, h3, h4, _⟩ := traverse_spec m geom v
+  simp only [constrained3]
+  by_cases hc : ((traverse m geom v).1 && sat && v (m + 1)) = true
+  · rw [if_pos hc]
+    exact ⟨fun _ => ⟨rfl, rfl⟩, fun h => by simp at h⟩
+  · rw [if_neg hc]
+    refine ⟨fun h => by simp at h, fun _ => ⟨rfl, ?_⟩⟩
+    intro hf
+    subst hf
+    exact ⟨_, rfl, h2, h3, h4⟩
+
+example : (constrained3 true true 5 true (fun j => j != 3)).back = some 2 := by decide
+
+/-- [AF] what holds of the code as it stands in /repo: both forms agree and answer valid exactly when
+the end state satisfies the constraint, the traversal arrives and every VISITED state is valid —
+the end state's own validity does not enter. -/
+theorem constrained_old_partial (hasFirst sat : Bool) (m : Nat) (geom : Bool) (v : Nat → Bool) :
+    ((constrained2Old sat m geom v).verdict = true ↔
+        sat = true ∧ geom = true ∧ ∀ j, 1 ≤ j → j ≤ m → v j = true) ∧
+    (constrained2Old sat m geom v).verdict = (constrained3Old hasFirst sat m geom v).verdict := by
+  have ht := (traverse_spec m geom v).1
+  refine ⟨?_, ?_⟩
+  · rw [← ht]
+    unfold constrained2Old
+    cases sat <;> simp
+  · unfold constrained2Old constrained3Old
+    cases sat <;> cases hasFirst <;> cases (traverse m geom v).1 <;> simp
+
+/-- F121 on the code in /repo: a motion whose end state is invalid is accepted (every visited state
+valid, the constraint satisfied, the traversal arrives) — by both forms. -/
+theorem constrained_old_endstate_fails :
+    ¬ ∀ (sat : Bool) (m : Nat) (geom : Bool) (v : Nat → Bool),
+        (constrained2Old sat m geom v).verdict = true → v (m + 1) = true := by
+  intro h
+  have := h true 2 true (fun j => j != 3) (by decide)
+  simp at this
+
+/-- F120 on the code in /repo: no call of either form moves a counter. -/
+theorem constrained_old_counters_fails :
+    ¬ ∀ (hasFirst sat : Bool) (m : Nat) (geom : Bool) (v : Nat → Bool),
+        CCountsOnce (constrained2Old sat m geom v) ∧ CCountsOnce (constrained3Old hasFirst sat m geom v) := by
+  intro h
+  have := (h true true 1 true (fun _ => true)).1
+  simp [constrained2Old, CCountsOnce] at this
+
+/-- F122 on the code in /repo: an invalid motion checked with `lastValid.first == nullptr` (or
+rejected only because the end state violates the constraint) leaves `lastValid.second` unwritten. -/
+theorem constrained_old_second_unwritten_fails :
+    ¬ ∀ (hasFirst sat : Bool) (m : Nat) (geom : Bool) (v : Nat → Bool),
+        (constrained3Old hasFirst sat m geom v).verdict = false →
+          (constrained3Old hasFirst sat m geom v).wroteSecond = true := by
+  intro h
+  have := h false true 2 true (fun j => j != 1) (by decide)
+  revert this
+  decide
+
 /-! ### getMotionStates -/
 
 /-- how many states the call is asked for: the interior points plus the two end points if wanted. -/
